@@ -6,6 +6,7 @@ import (
 	"crypto/ed25519"
 	"fmt"
 	"math/big"
+	"testing/synctest"
 
 	"github.com/gordian-engine/gordian/gcrypto"
 	"github.com/gordian-engine/gordian/internal/zzverif/vk"
@@ -1284,6 +1285,31 @@ func firstT(op Op) int {
 		return op.T[0].T
 	}
 	return op.D % 3
+}
+
+// ---------------------------------------------------------------------------
+// proposed header fetcher (a driver component the engine trusts to return the
+// header with the requested hash): answers a pending fetch request honestly.
+
+func (s *sim) execFetch(op Op) {
+	if !s.alive || len(s.fetchReqs) == 0 {
+		return
+	}
+	i := op.D % len(s.fetchReqs)
+	fr := s.fetchReqs[i]
+	s.fetchReqs = append(s.fetchReqs[:i], s.fetchReqs[i+1:]...)
+	for _, ph := range s.knownAt(fr.H) {
+		if string(ph.Header.Hash) == fr.Hash {
+			select {
+			case s.n.fetch.FetchedCh <- ph:
+				s.label("fetch-answered")
+			default:
+			}
+			synctest.Wait()
+			return
+		}
+	}
+	s.label("fetch-unknown-hash")
 }
 
 // ---------------------------------------------------------------------------
